@@ -182,6 +182,179 @@ def key_cm(line, impl, model):
     return "clientmap-" + (p.split(":")[0] if ":" in p else "other")
 
 
+# ------------------------------------------------------------------ outgoing queues with contents, explicit clock (qm)
+
+def gen_qm(ctx, cap):
+    """histories of WriteTo / OutgoingQueue+receive / held receive / sweep with chosen clock readings:
+    the model's qstep against clientMapInner + the records' channels (in-package driver, no sleeping)"""
+    rng = ctx.rng
+    lines, kinds = [], []
+    def add(T, ops, kind):
+        lines.append("%s qm %d %d %s" % (AREA, cap, T, chunked(ops))); kinds.append(kind)
+    n = 400 if ctx.tier == "quick" else 4000
+    for i in range(n):
+        T = rng.choice([1, 2, 5, 10, 10, 10, 100])
+        naddr = rng.choice([1, 2, 2, 3, 4, 6])
+        now = rng.choice([0, 0, 5, -20])
+        ops, nq = [], 0
+        for _ in range(rng.choice([3, 6, 12, 25, 60])):
+            c = rng.random()
+            if i % 7 == 3:
+                now += rng.choice([-3, -1, 0, 1, 2, T])      # non-monotonic clock
+            else:
+                now += rng.choice([0, 0, 0, 1, 1, 2, T // 2, T - 1, T, T + 1])
+            if c < 0.45:
+                ops.append("w%d:%s@%d" % (rng.randrange(naddr), rpayload(rng), now)); nq += 1
+            elif c < 0.62:
+                ops.append("o%d@%d" % (rng.randrange(naddr), now)); nq += 1
+            elif c < 0.74:
+                ops.append("h%d" % rng.randrange(min(nq, 8) + 1))
+            else:
+                ops.append("e%d" % now)
+        add(T, ops, "qm-random")
+    # exhaustive short histories: two addresses, instants on the expiry boundary (timeout 10), after a
+    # prefix that leaves packets queued for both
+    pre = ["w0:x01@0", "w0:x02@0", "w1:x03@1"]
+    alpha = ["w0:x0a@5", "w1:x0b@9", "o0@9", "o1@11", "h0", "h1", "e9", "e10", "e11", "e15", "e19", "e25"]
+    L = 3 if ctx.tier == "quick" else 4
+    for k in range(1, L + 1):
+        for seq in itertools.product(alpha, repeat=k):
+            add(10, pre + list(seq) + ["o0@30", "o1@30", "h0", "h1"], "qm-exhaustive")
+    # the periodic sweeper's schedule (period = timeout/2, every phase): a client written once, another
+    # kept busy; kept with its packets at every tick before last_seen + timeout, gone at the first after
+    T = 10
+    for phase in range(0, 5):
+        for t0 in range(phase, phase + 6):
+            ops = ["w1:x11@%d" % t0, "w1:x12@%d" % t0, "w2:x21@%d" % t0]
+            for k in range(1, 6):
+                tick = phase + 5 * k
+                if tick < t0:
+                    continue
+                ops += ["e%d" % tick, "w2:x22@%d" % tick, "h0"] if k % 2 else ["e%d" % tick, "o2@%d" % tick]
+            ops += ["o1@%d" % (phase + 30)]
+            add(T, ops, "qm-ticker")
+    # capacity: a full queue drops, survives sweeps that do not expire it with every packet in place,
+    # and goes with the queue at expiry (the closed channel still holds the packets; the new queue is empty)
+    for extra in (0, 2):
+        fill = ["w1:g2.%d@%d" % (j % 251, j % 3) for j in range(cap + extra)]
+        mid = ["e5", "w2:x77@6", "e9", "o1@9", "o1@9", "e12", "w1:xfe@13", "e18"]
+        drain = ["o1@%d" % (19 + (j % 2)) for j in range(cap + 1)]
+        add(10, fill + mid + drain, "qm-full-kept")
+        fill = ["w1:g2.%d@0" % (j % 251) for j in range(cap + extra)]
+        add(10, fill + ["e9", "h0", "e10", "h0", "h0", "o1@11", "w1:x55@11", "o1@12", "o1@12"] + ["h0"] * 5, "qm-full-expired")
+    return lines, kinds
+
+
+def render_q(q):
+    if len(q) <= 6:
+        return "+".join("x" + p for p in q) if q else "e"
+    return "x%s+x%s+#%d+x%s" % (q[0], q[1], len(q), q[-1])
+
+
+def prop_qm(line, impl, model):
+    """Reference monitor for the retention and FIFO clauses of C17, evaluated on the implementation's
+    answers: per address a queue with identity and contents; kept with its contents while
+    now - last_seen < timeout at a sweep, removed and closed (with what is left in it) otherwise;
+    FIFO per queue; a new, empty queue after an expiry."""
+    if impl.startswith("!"):
+        return "other: outgoing queue driver: " + impl[:200]
+    a = line.split(" ")
+    cap, T = int(a[2]), int(a[3])
+    ops = qc_ops(" ".join(a[:3] + a[4:]))
+    outs = impl.split(",")
+    if len(outs) != len(ops):
+        return "other: malformed answer"
+    live, dead, nextq = {}, {}, 0      # addr -> [seen, qid, contents]; qid -> contents
+    for idx, (o, tok) in enumerate(zip(ops, outs)):
+        try:
+            res, lv, dd = tok.split("/")
+        except ValueError:
+            return "other: malformed answer " + tok[:80]
+        want = None
+        if o[0] in "wo":
+            body, now = o[1:].rsplit("@", 1)
+            now = int(now)
+            ad = int(body.split(":")[0])
+            if ad not in live:
+                live[ad] = [now, nextq, []]
+                nextq += 1
+            rec = live[ad]
+            rec[0] = now
+            if o[0] == "w":
+                p = expand(body.split(":", 1)[1])
+                if len(rec[2]) < cap:
+                    rec[2].append(p)
+                want = "n%d" % (len(p) // 2)
+            else:
+                want = "x" + rec[2].pop(0) if rec[2] else "B"
+        elif o[0] == "h":
+            k = int(o[1:])
+            owner = [r for r in live.values() if r[1] == k]
+            if owner:
+                want = "x" + owner[0][2].pop(0) if owner[0][2] else "B"
+            elif k in dead:
+                want = "D"
+            else:
+                want = "B"
+        elif o[0] == "e":
+            now = int(o[1:])
+            want = "-"
+            for ad in sorted(live):
+                if now - live[ad][0] >= T:
+                    dead[live[ad][1]] = live[ad][2]
+                    del live[ad]
+        where = "after op %d (%s)" % (idx, o)
+        # the map, as the implementation shows it
+        got_live = {}
+        if lv != "e":
+            for item in lv.split(";"):
+                if item.startswith("!"):
+                    return "other: the map is inconsistent %s: %s" % (where, lv[:120])
+                head, cont = item.split("=", 1)
+                ad, seen, q = head.split(".")
+                got_live[int(ad)] = (int(seen), int(q), cont)
+        got_dead = {}
+        if dd != "e":
+            for item in dd.split(";"):
+                got_dead[int(item.split("!")[0])] = item
+        for ad, rec in live.items():
+            if ad not in got_live:
+                if o[0] == "e":
+                    return "early-removal: client %d, seen %d before the sweep at %s (timeout %d), was discarded with %d packet(s) queued" % (
+                        ad, int(o[1:]) - rec[0], o[1:], T, len(rec[2]))
+                return "contents-lost: client %d has no queue %s" % (ad, where)
+            seen, q, cont = got_live[ad]
+            if cont == "!closed":
+                return "early-removal: the queue of live client %d was closed %s" % (ad, where)
+            if q != rec[1]:
+                return "contents-lost: client %d's queue was replaced (queue %d, expected %d) %s" % (ad, q, rec[1], where)
+            if cont != render_q(rec[2]):
+                return "contents-lost: client %d's queue holds %s, expected %s %s" % (ad, cont[:60], render_q(rec[2])[:60], where)
+            if seen != rec[0]:
+                return "other: client %d last seen %d, expected %d %s" % (ad, seen, rec[0], where)
+        for ad in got_live:
+            if ad not in live:
+                if o[0] == "e":
+                    return "late: client %d survived the sweep at %s although idle for the timeout %d" % (ad, o[1:], T)
+                return "late: client %d is in the map %s, expected to be gone" % (ad, where)
+        for k, q in dead.items():
+            if k not in got_dead:
+                return "late: queue %d of a discarded client is not accounted for as closed %s" % (k, where)
+            if got_dead[k].endswith("!open"):
+                return "late: queue %d of a discarded client was not closed %s" % (k, where)
+        for k in got_dead:
+            if k not in dead:
+                return "early-removal: queue %d was closed %s" % (k, where)
+        if res != want:
+            return "contents-lost: %s answered %s, expected %s (first-in-first-out per queue)" % (where, res[:40], want[:40])
+    return None
+
+
+def key_qm(line, impl, model):
+    p = prop_qm(line, impl, model) or ""
+    return "clientmap-" + (p.split(":")[0] if ":" in p else "other")
+
+
 # ------------------------------------------------------------------ QueuePacketConn, black box
 
 def rpayload(rng):
@@ -447,6 +620,9 @@ def parse_redial(out):
 
 
 def prop_redial(line, impl, model):
+    if impl.startswith("!aliased"):
+        return ("aliased: a packet that went through the adapter is not the value that was handed in "
+                "(the adapter kept a reference to a buffer its caller or its carrier reuses): " + impl[:60])
     if impl.startswith("!"):
         return "other: redial driver: " + impl[:200]
     toks = line.split(" ")[3].split(",")
@@ -590,7 +766,8 @@ def run(ctx):
     ctx.assumptions += ["models = coq/Model/{GoHeap,ClientMap,QueueConn,Redial}.v (hand written); tie = correspondence on generated cases",
                         "QueuePacketConn.WriteTo is modelled as one atomic step; a carrier's pending ReadFrom/WriteTo fails once the carrier is closed",
                         "a carrier is closed when its Close() has RETURNED (model: LDCloseCarrier, a step of the dial loop itself); scripted carriers whose Close blocks until released, and real-time carriers whose Close takes 30-40 ms, record at every dial how many earlier carriers are not closed yet",
-                        "clock: explicit for clientMapInner (in-package driver); real for the sweeper monitor (timeout 200 ms, slack 1 timeout)"]
+                        "clock: explicit for clientMapInner and for the outgoing queues with contents (in-package driver `qm`: the driver performs the bodies of WriteTo/trySend/OutgoingQueue on the inner map with the instant of the case, because the exported methods read time.Now()); real for the sweeper monitor (timeout 200 ms, slack 1 timeout)",
+                        "no aliasing of caller buffers: observed only (drivers overwrite every buffer after the call and every received slice), not a theorem: payloads are values in the model"]
     # container/heap and QueuePacketConn: black box
     rc, capo, err = vlib.run_impl(exe, [AREA + " cap"])
     cap = int(capo[0])
@@ -603,8 +780,20 @@ def run(ctx):
     try:
         texe = vlib.go_test_build("./common/turbotunnel")
         lines, kinds = gen_cm(ctx)
-        ctx.correspond(texe, lines, kinds, label="clientMapInner", prop=prop_cm, key_of=key_cm, crosscheck=25,
-                       impl_args=("-test.run", "TestVerifDriver"))
+        m1, _ = ctx.correspond(texe, lines, kinds, label="clientMapInner", prop=prop_cm, key_of=key_cm, crosscheck=0,
+                               impl_args=("-test.run", "TestVerifDriver"))
+        lines2, kinds2 = gen_qm(ctx, cap)
+        m2, _ = ctx.correspond(texe, lines2, kinds2, label="outgoing queues, explicit clock", prop=prop_qm, key_of=key_qm, crosscheck=0,
+                               impl_args=("-test.run", "TestVerifDriver"))
+        # one in-Coq cross-check of the extracted runner for both families (a coqc start costs more than the cases)
+        sample = []
+        for ls, ms, n in ((lines, m1, 25), (lines2, m2, 20)):
+            short = [(l, m) for l, m in zip(ls, ms) if len(l) < 400 and len(m) < 2000]
+            ctx.rng.shuffle(short)
+            sample += short[:n]
+        for i in vlib.coq_crosscheck(sample):
+            ctx.not_shown("extraction cross-check: vm_compute and extracted runner differ on `%s`" % sample[i][0][:300])
+        ctx.extra["vm_compute_crosschecked"] = ctx.extra.get("vm_compute_crosschecked", 0) + len(sample)
     except vlib.GoBuildError as e:
         ctx.not_shown("harness: the in-package client map driver no longer builds against the repo "
                       "(explicit-clock expiry is then only covered by the real-clock sweep monitor): " + str(e)[-800:])
@@ -635,13 +824,13 @@ def replay(ctx, doc):
             bad += 1
             continue
         m = vlib.run_model([case])[0]
-        if a[1] == "cm":
+        if a[1] in ("cm", "qm"):
             texe = vlib.go_test_build("./common/turbotunnel")
             rc, r, err = vlib.run_impl(texe, [case], args=("-test.run", "TestVerifDriver"))
         else:
             rc, r, err = vlib.run_impl(exe, [case])
         r = r[0] if r else "!died"
-        p = dict(heap=prop_heap, cm=prop_cm, qc=prop_qc, redial=prop_redial, redials=prop_redial)[a[1]](case, r, m)
+        p = dict(heap=prop_heap, cm=prop_cm, qm=prop_qm, qc=prop_qc, redial=prop_redial, redials=prop_redial)[a[1]](case, r, m)
         print("case: %s\n model: %s\n impl:  %s\n property: %s" % (case[:300], m[:300], r[:300], p or "holds"))
         bad += 1 if p else 0
     return 1 if bad else 0
